@@ -125,7 +125,7 @@ def check_record(ctx, case):
 
 @st.composite
 def pipeline_case(draw):
-    spec = draw(D.dataset_spec(max_loci=3, max_snvs=4, max_samples=3, max_reads=15, mapq_values=(60,), flags=False, min_reads=0))
+    spec = draw(D.dataset_spec(max_loci=3, max_snvs=4, max_samples=3, max_reads=15, mapq_values=(60,), flags=False, min_reads=0, exotic=True))
     ploidy = {s: draw(st.sampled_from([2, 2, 4, 3])) for s in spec["samples"]}
     thr = draw(st.sampled_from([0.2, 0.05, 0.9, 0.99, 1.0]))
     return {"kind": "pipeline", "spec": spec, "ploidy": ploidy, "threshold": thr, "seed": draw(st.integers(1, 10000)),
